@@ -1,2 +1,34 @@
-(* placeholder; theorems are added below *)
-From Hexital Require Import Base.Prelude.
+(* C06 - Momentum, oscillator and volume indicators match their definitions.
+   Proved (recurrence specifications): RSI's value and range incl. the no-losses case, the
+   invariants of Wilder's averages, OBV's step law.  The other indicators are decided by
+   the bit-exact engine correspondence and the reference falsifier. *)
+From Coq Require Import ZArith List String Bool Reals.
+From Hexital Require Import Base.Prelude Base.Num Model.Candle Inst.RealInst Spec.Steppers
+  Proofs.SpecGeneric Proofs.SpecReal.
+Local Open Scope R_scope.
+
+Theorem C06_rsi_value_in_range :
+  forall (nd : Z) (g l : R), (0 <= nd)%Z -> 0 <= g -> 0 <= l ->
+  exists r, rsi_value ROps nd g l = Ok r /\ 0 <= r <= 100.
+Proof. exact rsi_value_range. Qed.
+Print Assumptions C06_rsi_value_in_range.
+
+Theorem C06_rsi_step :
+  forall (p nd : Z) (s : state ROps) (x pr g0 l0 px : R) rest,
+  (0 < p)%Z -> (0 <= nd)%Z -> s_prev ROps s = Some pr -> s_a ROps s = Some g0 -> s_b ROps s = Some l0 ->
+  s_buf ROps s = px :: rest -> 0 <= g0 -> 0 <= l0 ->
+  exists r s' g l, rsi_step ROps p nd s x = Ok (VNum r, s') /\ 0 <= r <= 100 /\
+    s_a ROps s' = Some g /\ s_b ROps s' = Some l /\ 0 <= g /\ 0 <= l.
+Proof. exact rsi_step_range. Qed.
+Print Assumptions C06_rsi_step.
+
+(* OBV: unchanged when the close is unchanged, plus the volume when it rose, minus when it
+   fell - for every NumOps instance *)
+Theorem C06_obv_step_law :
+  forall (O : NumOps) nd (s s' : state O) (c : inp O) pr pc v,
+  s_prev O s = Some pr -> s_a O s = Some pc -> step O S_OBV nd s c = Ok (v, s') ->
+  (neqb O (x_c O c) pc = true /\ v = VNum pr) \/
+  (neqb O (x_c O c) pc = false /\ nltb O pc (x_c O c) = true /\ v = VNum (rnd O nd (nadd O pr (x_v O c)))) \/
+  (neqb O (x_c O c) pc = false /\ nltb O pc (x_c O c) = false /\ v = VNum (rnd O nd (nsub O pr (x_v O c)))).
+Proof. exact obv_step_law. Qed.
+Print Assumptions C06_obv_step_law.
